@@ -254,7 +254,8 @@ Definition sync (cfg : config) (src dst : repo) (roots : list id) : sync_result 
   end.
 
 (** ** The shallow ("ultimate reduction") cache lookup, RedunBackendDb._get_call_node,
-       without the optional context filter (which only narrows the candidates). *)
+       without the context filter (with a context: only nodes tagged with it; without one: only
+       nodes recorded without a context) — it only narrows the candidates. *)
 Definition current (cfg : config) (reg : list id) (c : call) : bool :=
   (if cfg_require_own cfg then memN (c_task c) (c_subtree c) else true)
   && subsetN (c_subtree c) reg.
